@@ -58,6 +58,11 @@ def matrices(draw, min_bins=6, max_bins=24, max_chroms=4):
     return {"sizes": sizes, "offsets": offsets, "rows": rows, "n": n}
 
 
+# the documented defaults of balance_cooler / `cooler balance`: options left out of a call take these values
+DOC_DEFAULTS = {"cis_only": False, "trans_only": False, "ignore_diags": 2, "mad_max": 5, "min_nnz": 10, "min_count": 0,
+                "blacklist": None, "rescale": True, "x0": None, "tol": 1e-5, "max_iters": 200}
+
+
 @st.composite
 def options(draw, n, nch):
     mode = draw(st.sampled_from(["genome", "cis", "genome", "trans", "cis"] if nch >= 2 else ["genome", "genome", "cis"]))
@@ -68,6 +73,19 @@ def options(draw, n, nch):
         if x0kind == "holes":
             for i in draw(st.lists(st.integers(0, n - 1), min_size=1, max_size=3, unique=True)):
                 x0[i] = draw(st.sampled_from([0.0, None]))
+    # options that are NOT passed: the documented default applies (and is what the reference then uses)
+    omit = draw(st.lists(st.sampled_from(["ignore_diags", "mad_max", "min_count", "tol", "max_iters", "rescale", "min_nnz", "x0", "blacklist"]),
+                         unique=True, min_size=1, max_size=5)) if draw(st.integers(0, 2)) == 0 else []
+    if "min_nnz" in omit and n < 14:
+        omit.remove("min_nnz")      # the default (10) would mask every bin of a small matrix
+    o = _options(draw, n, mode, x0)
+    for k in omit:
+        o[k] = DOC_DEFAULTS[k]
+    o["omit"] = sorted(omit)
+    return o
+
+
+def _options(draw, n, mode, x0):
     return {"cis_only": mode == "cis", "trans_only": mode == "trans",
             "ignore_diags": draw(st.sampled_from([2, 1, 0, 2, 3])),
             "min_nnz": draw(st.sampled_from([2, 0, 1, 5, 10])), "min_count": draw(st.sampled_from([0, 0, 5, 20])),
@@ -121,10 +139,12 @@ def run_balance(clr, o, **kw):
     with warnings.catch_warnings():
         warnings.simplefilter("ignore")
         with np.errstate(all="ignore"):
-            return cooler.balance_cooler(
-                clr, cis_only=o["cis_only"], trans_only=o["trans_only"], ignore_diags=o["ignore_diags"] or False,
-                mad_max=o["mad_max"], min_nnz=o["min_nnz"], min_count=o["min_count"], blacklist=bl,
-                rescale_marginals=o["rescale"], x0=x0, tol=o["tol"], max_iters=o["max_iters"], **kw)
+            okw = dict(cis_only=o["cis_only"], trans_only=o["trans_only"], ignore_diags=o["ignore_diags"] or False,
+                       mad_max=o["mad_max"], min_nnz=o["min_nnz"], min_count=o["min_count"], blacklist=bl,
+                       rescale_marginals=o["rescale"], x0=x0, tol=o["tol"], max_iters=o["max_iters"])
+            for k in o.get("omit", []):
+                okw.pop("rescale_marginals" if k == "rescale" else k)
+            return cooler.balance_cooler(clr, **okw, **kw)
 
 
 def known_modes(case):
@@ -255,6 +275,7 @@ def check_balance(case, ctx: Ctx):
     already = len(set(np.round(A.sum(axis=1)[A.sum(axis=1) > 0], 9))) <= 1
     nt = bool(conv.any()) and int(fin.sum()) >= 3 and bool(must.any()) and not already
     ctx.record(case, nt, ["balance", "mode=" + ("cis" if o["cis_only"] else "trans" if o["trans_only"] else "genome"),
+                          "options-left-to-defaults=" + str(len(o.get("omit", []))),
                           "converged" if conv.all() else "partly-converged" if conv.any() else "not-converged",
                           f"ignore_diags={o['ignore_diags']}", "flatness-checked" if n_checked else "flatness-skipped",
                           "all-nan" if not fin.any() else "some-finite", "x0" if o["x0"] else "no-x0",
@@ -269,7 +290,7 @@ def check_balance(case, ctx: Ctx):
 def cli_cases(draw):
     m = draw(matrices(min_bins=6, max_bins=16, max_chroms=3))
     o = draw(options(m["n"], len(m["sizes"])))
-    o.update(x0=None, rescale=True, blacklist=None, max_iters=min(o["max_iters"], 100))
+    o.update(x0=None, rescale=True, blacklist=None, max_iters=min(o["max_iters"], 100) if "max_iters" not in o["omit"] else o["max_iters"])
     regs = []
     for _ in range(draw(st.integers(1, 3))):
         ci = draw(st.integers(0, len(m["sizes"]) - 1))
@@ -302,8 +323,11 @@ def check_cli(case, ctx: Ctx):
                 f.write("chrom\tstart\tend\n")
             for ci, a, b in case["regions"]:
                 f.write(f"chr{ci + 1}\t{a}\t{b}\n")
-        args = ["balance", path, "-p", 1, "--blacklist", bed, "--ignore-diags", o["ignore_diags"], "--mad-max", o["mad_max"],
-                "--min-nnz", o["min_nnz"], "--min-count", o["min_count"], "--tol", repr(o["tol"]), "--max-iters", o["max_iters"]]
+        args = ["balance", path, "-p", 1, "--blacklist", bed]
+        for k, flag in (("ignore_diags", "--ignore-diags"), ("mad_max", "--mad-max"), ("min_nnz", "--min-nnz"),
+                        ("min_count", "--min-count"), ("tol", "--tol"), ("max_iters", "--max-iters")):
+            if k not in o.get("omit", []):
+                args += [flag, repr(o[k]) if k == "tol" else o[k]]
         if o["cis_only"]:
             args.append("--cis-only")
         if o["trans_only"]:
